@@ -7,11 +7,12 @@ for f in sorted(os.listdir(os.path.join(V, "drivers", "meta"))):
     if f.endswith(".json"):
         meta[f[:-5]] = json.load(open(os.path.join(V, "drivers", "meta", f)))
 props = [json.loads(l) for l in open(os.path.join(V, "properties.jsonl"))]
+ready = set(open(os.path.join(V, "drivers", "READY")).read().split())
 checks, na = [], []
 for p in props:
     pid = p["id"]
     m = meta.get(pid)
-    if not m or not os.path.exists(os.path.join(V, "drivers", pid.lower() + ".c")) or m.get("not_applicable"):
+    if pid not in ready or not m or not os.path.exists(os.path.join(V, "drivers", pid.lower() + ".c")) or m.get("not_applicable"):
         na.append({"property_id": pid, "reason": (m or {}).get("not_applicable", "check not built yet (work in progress); see DESIGN.md section 3 for the plan")})
         continue
     checks.append({
